@@ -251,7 +251,8 @@ def run(chk: common.Check, tier: str):
                 f"{sorted(GRAMMARS)} x previous state of the output path {{absent, present}} x fault sets: none, every single "
                 "intercepted file operation (open/write/close/replace/unlink) failing with an exception or a simulated "
                 "process kill (partial writes of 0/half/all), and double faults (failure + failing cleanup); "
-                "non-trivial = a fault was injected or the grammar fails; distinct by the whole tuple")
+                "non-trivial = a fault was injected or the grammar fails; distinct by the whole tuple; plus "
+                "utils.generate_parser(grammar, path) for each grammar-level cause (no fault injection)")
     sandbox = tempfile.mkdtemp(prefix="pegverif-c17-")
     cases, descs = [], []
     try:
@@ -330,6 +331,41 @@ def run(chk: common.Check, tier: str):
                             tr = "[OUnlink; OUnlink; OUnlink; OUnlink; OUnlink; OUnlink; OUnlink]"
                         cases.append(f"({copt(old, cstr)}, None, {gr}, {fl}, ({copt(after, cstr)}, {copt(tmp_after, cstr)}, {oc}, {tr}))")
                         descs.append(desc)
+        # ---- a neighbouring entry point: pegen.utils.generate_parser(grammar, parser_path) with a grammar-level cause
+        # (the statement speaks of the output path of any failing generation; faults are not injected here)
+        from pegen.build import build_parser
+        from pegen.utils import generate_parser
+        for gname, gtext in GRAMMARS.items():
+            if gtext is None:
+                continue
+            gpath = os.path.join(sandbox, f"{gname}.gram")
+            if reference_text(gpath) is not None:
+                continue
+            try:
+                grammar = build_parser(gpath)[0]
+            except BaseException:
+                continue            # the text is not readable: nothing to hand to generate_parser
+            for old in (None, "# OLD PARSER CONTENT\n" * 3):
+                out_path = os.path.join(sandbox, "out_utils.py")
+                with contextlib.suppress(FileNotFoundError):
+                    _real_unlink(out_path)
+                if old is not None:
+                    with _real_open(out_path, "w") as f:
+                        f.write(old)
+                try:
+                    generate_parser(grammar, out_path)
+                    res = "done"
+                except BaseException:
+                    res = "raised"
+                after = read_or_none(out_path)
+                chk.count()
+                chk.bump(f"utils/{res}")
+                chk.note_case(json.dumps(["utils", gname, old is not None]))
+                if res == "raised" and after != old:
+                    chk.violation(f"output path damaged by a failing generation: entry=utils.generate_parser grammar={gname} "
+                                  f"target_after={'absent' if after is None else f'DAMAGED({len(after)} chars)'}",
+                                  {"entry": "pegen.utils.generate_parser(grammar, parser_path)", "grammar": gname, "grammar_text": gtext,
+                                   "old_content": old, "after": after}, True)
     finally:
         shutil.rmtree(sandbox, ignore_errors=True)
     failing = common.run_cases(chk, "kbuild", PRELUDE, "bcase", cases, OK, shard=60)
